@@ -917,6 +917,11 @@ func (s *Server) handleBlockCmd(p Peer, block *block.Block) error {
 		return nil
 	}
 	if s.stateSync.IsActive() {
+		if !s.stateSync.NeedBlocks() {
+			// Headers or state are still being synchronized, the block height
+			// of the state sync module is not initialized yet.
+			return nil
+		}
 		return s.bSyncQueue.Put(block)
 	}
 	return s.bQueue.Put(block)
